@@ -24,7 +24,7 @@ func init() { rt.Register(&c10{}) }
 
 func (c10) ID() string { return "C10" }
 
-var c10Texts = []string{"", "a", "Ab", "a,b", ",", "12", "-3", "007", "1.5", "-0.25", "x1", "0.1", "3.14159", "a,b,c", "a-b", "1,2,3", "0.5,1.5", "Hello World", "abab", "-0.3", "16777217", "10", "zzz", "1,2", "3,4,5", "a:b:c", "k_v", "A", "1e3", " 1", ".5", "010", "-025", "0100", "00012", "0.0078125", "-3.00390625", "0.0009765625", "1e-7", "123456.7890625", "-9223372036854775808", "+9223372036854775807", "00000000000000000000042", "-1000000000000000000", "9223372036854775808", "Zebra Quiz", "XYZ", "18446744073709551616", "100000000000000000000"}
+var c10Texts = []string{"", "a", "Ab", "a,b", ",", "12", "-3", "007", "1.5", "-0.25", "x1", "0.1", "3.14159", "a,b,c", "a-b", "1,2,3", "0.5,1.5", "Hello World", "abab", "-0.3", "16777217", "10", "zzz", "1,2", "3,4,5", "a:b:c", "k_v", "A", "1e3", " 1", ".5", "010", "-025", "0100", "00012", "0.0078125", "-3.00390625", "0.0009765625", "1e-7", "123456.7890625", "-9223372036854775808", "+9223372036854775807", "00000000000000000000042", "-1000000000000000000", "9223372036854775808", "Zebra Quiz", "XYZ", "18446744073709551616", "100000000000000000000", "9007199254740993", "-9007199254740995"} // the last two since wave 15: integers no float64 holds (C09-ab, C10-ab)
 var c10JSON = []string{`{"x":1,"y":"s"}`, `{"x":"str","list":[1,2,3]}`, `{"x":2.5,"o":{"y":"deep","z":[10,20]}}`, `{"list":["a","b"],"x":true}`, `{"list":[0.5,1.5,2.5],"o":{"y":"q"}}`, `{"x":"","y":"t","list":[7]}`}
 
 type c10Tmpl struct {
@@ -152,7 +152,7 @@ func (k c10) Run(c *rt.Ctx) {
 func (k c10) random(c *rt.Ctx) {
 	r := c.R
 	numStore := gen.Dense(r.Range(3, 40), "n", func(i int) string { return strconv.Itoa((i*7)%23 - 5) })
-	ints := []int64{0, 1, -1, 7, 1000000000000, 3, 12}
+	ints := []int64{0, 1, -1, 7, 1000000000000, 3, 12, 9007199254740993, 9223372036854775807}
 	flts := []string{"0.5", "1.5", "2.0", "0.25", "3.75", "0.1", "2.5"}
 	numArg := func(rowdep bool) *gen.Node {
 		switch r.Intn(5) {
@@ -359,6 +359,15 @@ func (k c10) random(c *rt.Ctx) {
 				k.judgeField(c, gen.Call("strlen", gen.Call("str", n1)), numStore, "strlen", "named-args")
 			}
 			c.Rec.Inc("named_args")
+			if c.Case%3 == 0 {
+				// wave 15 (C10-aa): a named LIST read three times by one field, the middle reader being a
+				// function that may compute in place - what the third reader gets must still be the list
+				p := gen.Ref("p", gen.Call("split", gen.Value(), gen.Str(",")))
+				lists := []refstore.Pair{{K: "k1", V: "a,b"}, {K: "k2", V: "1,2,3"}, {K: "k3", V: "a,b,c"}, {K: "k4", V: "0.5,1.5"}, {K: "k5", V: "x,y,,z"}, {K: "k6", V: "q,r"}, {K: "k7", V: "7,8"}}
+				k.judgeField(c, gen.Call("join", gen.Str(sep), gen.IndexI(p, 0), gen.Call("len", p), gen.IndexI(p, 1)), lists, "join", "named-list-read-three-times")
+				k.judgeField(c, gen.Bin("+", gen.Bin("+", gen.IndexI(p, 1), gen.Call("str", gen.Call("len", p))), gen.IndexI(p, 0)), lists, "index", "named-list-read-three-times")
+				c.Rec.Inc("named_list_read_three_times")
+			}
 		}
 		k.judgeField(c, gen.Call("upper", gen.Bin("+", gen.Key(), gen.Str("xY"))), numStore, "upper", "rowdep")
 		k.judgeField(c, gen.Call("lower", gen.Bin("+", gen.Str("Q"), gen.Key())), numStore, "lower", "rowdep")
